@@ -71,10 +71,15 @@ func GetReplayCache(d time.Duration) *Cache {
 
 // AddEntry adds an entry to the Cache.
 func (c *Cache) AddEntry(sname types.PrincipalName, a types.Authenticator) {
+	c.mux.Lock()
+	defer c.mux.Unlock()
+	c.addEntry(sname, a)
+}
+
+// addEntry adds an entry to the Cache. The caller must hold the write lock.
+func (c *Cache) addEntry(sname types.PrincipalName, a types.Authenticator) {
 	ct := a.CTime.Add(time.Duration(a.Cusec) * time.Microsecond)
-	if ce, ok := c.getClientEntries(a.CName); ok {
-		c.mux.Lock()
-		defer c.mux.Unlock()
+	if ce, ok := c.entries[a.CName.PrincipalNameString()]; ok {
 		ce.replayMap[ct] = replayCacheEntry{
 			presentedTime: time.Now().UTC(),
 			sName:         sname,
@@ -83,8 +88,6 @@ func (c *Cache) AddEntry(sname types.PrincipalName, a types.Authenticator) {
 		ce.seqNumber = a.SeqNumber
 		ce.subKey = a.SubKey
 	} else {
-		c.mux.Lock()
-		defer c.mux.Unlock()
 		c.entries[a.CName.PrincipalNameString()] = clientEntries{
 			replayMap: map[time.Time]replayCacheEntry{
 				ct: {
@@ -116,13 +119,18 @@ func (c *Cache) ClearOldEntries(d time.Duration) {
 }
 
 // IsReplay tests if the Authenticator provided is a replay within the duration defined. If this is not a replay add the entry to the cache for tracking.
+// The look-up and the insertion happen under one write lock so that concurrent presentations of the same authenticator cannot all be accepted.
 func (c *Cache) IsReplay(sname types.PrincipalName, a types.Authenticator) bool {
 	ct := a.CTime.Add(time.Duration(a.Cusec) * time.Microsecond)
-	if e, ok := c.getClientEntry(a.CName, ct); ok {
-		if e.sName.Equal(sname) {
-			return true
+	c.mux.Lock()
+	defer c.mux.Unlock()
+	if ce, ok := c.entries[a.CName.PrincipalNameString()]; ok {
+		if e, ok := ce.replayMap[ct]; ok {
+			if e.sName.Equal(sname) {
+				return true
+			}
 		}
 	}
-	c.AddEntry(sname, a)
+	c.addEntry(sname, a)
 	return false
 }
